@@ -509,9 +509,9 @@ def pool(items, workers=None):
                 rpid, st = pid, 0
             if rpid == 0:
                 # the watchdog counts the child's own CPU seconds (load on the machine must not turn into a verdict);
-                # a child that does not even get CPU is given up after 8 x that much wall-clock time
+                # a child that does not even get CPU is given up after 15 x that much wall-clock time
                 used = cpu_seconds(pid)
-                if used > item["watchdog"] or time.time() - t0 > 8 * item["watchdog"]:
+                if used > item["watchdog"] or time.time() - t0 > 15 * item["watchdog"]:
                     try:
                         os.kill(pid, signal.SIGKILL)
                     except ProcessLookupError:
